@@ -718,13 +718,30 @@ impl C08 {
                 b"a: !Cidr [\"10.0.0.0/16\", 4, 8]\n", b"a: !Join [\",\", [x, y]]\nb: !Select [0, !GetAZs \"\"]\n", b"a: !Foo []\nb: !Foo {k: v}\nc: !Foo bar\n", b"a: !If [c, x, y]\nb: !Equals [x, y]\nc: !And [x]\nd: !Not [x]\ne: !Or [x, y]\n",
                 b"a: !FindInMap [m, k1, k2]\nb: !Split [\",\", \"x,y\"]\nc: !ImportValue v\nd: !Base64 text\ne: !Length [1, 2]\nf: !ToJsonString {k: v}\n", b"Resources:\n  A:\n    Type: AWS::X::Y\n    Properties:\n      P: !Cidr [x, 1, 2]\n      Q: !Ref R\n      S: !GetAtt [A, Arn]\n      T: !Sub [\"${v}\", {v: 1}]\n",
                 b"- !Foo [1]\n- !Ref x\n", b"!Foo [1, 2]\n", b"a: !<tag:yaml.org,2002:seq> [1]\nb: !!seq [1]\nc: !!map {k: v}\nd: !!str 5\ne: !!int \"5\"\nf: !!float 1\ng: !!null null\nh: !!bool yes\n",
+                b"a: 1\na: 2\n", b"{\"a\": 1, \"a\": {\"b\": 2}}", b"1: x\ntrue: y\nnull: z\n2.5: w\n[1, 2]: v\n", b"a: &x [*x]\n", b"a: &x {k: *x}\n", b"a: *nope\n", b"&r r: *r\n",
+                b"a: \"nul\\0byte\"\nb: 'x'\n", b"a: \x00\n", b"<<: {a: 1}\nb: 2\n", b"a: &m {x: 1}\nb: {<<: [*m, *m], y: 2}\n", b"---\na: 1\n---\nb: 2\n...\n---\n", b"--- !!map\na: 1\n", b"a: !!python/object:os.system x\n",
+                b"a: 9223372036854775807\nb: 9223372036854775808\nc: -9223372036854775808\nd: -9223372036854775809\ne: 1.7976931348623157e308\nf: 1.8e308\ng: 4.9e-324\nh: 0.1e-400\n", b"{\"a\": 9223372036854775808, \"b\": -9223372036854775809, \"c\": 1.8e308, \"d\": 18446744073709551615, \"e\": 18446744073709551616}",
+                b"a: 0x7fffffffffffffff\nb: 0xffffffffffffffffff\nc: 0o7777777777777777777777\nd: 1_0\ne: +1\nf: 1e3\ng: .5\nh: 5.\ni: 0b101\nj: 1:30\n", b"a: yes\nb: No\nc: ON\nd: off\ne: y\nf: n\ng: ~\nh: Null\ni: TRUE\n",
                 b"Resources: 7\n", b"Resources: []\n", b"Resources:\n  A: 5\n", b"Resources:\n  A:\n    Properties:\n      P: 1\n", b"Resources:\n  A:\n    Type: 5\n    Properties:\n      P: 1\n",
                 b"Resources:\n  A:\n    Type: [a]\n    Properties: {P: {Q: [1, {R: null}]}}\n", b"Resources:\n  A:\n    Type: AWS::X::Y\n    Properties: [1, 2]\n", b"{\"Resources\": {\"A\": {\"Type\": \"AWS::X::Y\", \"Properties\": {\"P\": \"a\\nb\", \"Q\": \"\\\"q\\\"\"}}}}",
             ];
             let cands: Vec<usize> = (0..files.len()).filter(|i| files[*i].rel.starts_with("data/") || files[*i].rel.starts_with("tmpl/") || files[*i].rel.starts_with("tests/") || files[*i].rel.starts_with("params/") || files[*i].rel == "stdin/data.json").collect();
             if !cands.is_empty() {
                 let i = cands[r.usize(cands.len())];
-                files[i].bytes = r.pick(DOCS).to_vec();
+                files[i].bytes = if r.chance(1, 6) {
+                    // big but shallow: a very long scalar, a very long key, a long list / map (sizes kept
+                    // where a clause over every element still costs well under a second: the CPU
+                    // allowance decides hangs, and slowness is not what the property is about)
+                    match r.below(5) {
+                        0 => format!("a: \"{}\"\n", "x".repeat(70_000)).into_bytes(),
+                        1 => format!("{{\"{}\": 1}}", "k".repeat(70_000)).into_bytes(),
+                        2 => format!("a: [{}]\n", vec!["1"; 3_000].join(", ")).into_bytes(),
+                        3 => (0..1200).map(|i| format!("k{}: {}\n", i, i)).collect::<String>().into_bytes(),
+                        _ => format!("a: |\n{}", "  line\n".repeat(3_000)).into_bytes(),
+                    }
+                } else {
+                    r.pick(DOCS).to_vec()
+                };
                 rep.count("storage_fault.replaced_by_unusual_document", 1);
                 applied.push((files[i].rel.clone(), "unusual_document"));
             }
